@@ -258,6 +258,7 @@ def case_stream(ctx, rng: random.Random, n_random, nmax, mmax, exhaustive_n=3, b
     frng = random.Random(12345)
     fam = graphs.family_specs(frng, sizes=(4, 7, 12) + tuple(big))
     fam += graphs.family_specs(frng, sizes=(5, 9), ecls=graphs.ECLS_ALL, vcls=graphs.VCLS_MIX)
+    fam += graphs.hub_specs(frng)
     for spec in fam:
         k += 1
         if k % ctx.nshards != ctx.shard:
